@@ -279,7 +279,7 @@ theorem insideBlock_some (al : List Line) (hnr : noRemark al) (blk : List Nat) (
   · subst h0
     by_cases hl : al.length - 0 = 0
     · simp [hl] at h
-    · simp [hl] at h
+    · simp at h
   · by_cases hl : al.length - pos = 0
     · simp [h0, hl] at h
     · simp only [h0, hl, if_false, Option.map_some] at h
